@@ -5,6 +5,7 @@ package main
 
 import (
 	"bytes"
+	"encoding/csv"
 	"encoding/json"
 	"fmt"
 	"io"
@@ -21,12 +22,14 @@ import (
 	"time"
 
 	"github.com/openGemini/openGemini/lib/util/lifted/vm/protoparser/influx"
+	"github.com/tinylib/msgp/msgp"
 	"verifharness/internal/gen"
 )
 
 const (
-	e2eMeta = 20600
-	e2eHTTP = 20610
+	e2eMeta  = 20600
+	e2eHTTP  = 20610
+	e2eBlock = 256 // [http] read-block-size of the server under test
 )
 
 var e2eBase = fmt.Sprintf("http://127.0.0.1:%d", e2eHTTP)
@@ -55,6 +58,7 @@ func startServer(bin, tmpl, work string) (*exec.Cmd, error) {
 	for k, v := range rep {
 		s = strings.ReplaceAll(s, "127.0.0.1:"+k, fmt.Sprintf("127.0.0.1:%d", v))
 	}
+	s = strings.Replace(s, "[http]\n", fmt.Sprintf("[http]\n  read-block-size = %d\n", e2eBlock), 1)
 	s = strings.ReplaceAll(s, "flight-enabled = true", "flight-enabled = false")
 	s = strings.ReplaceAll(s, "store-enabled = true", "store-enabled = false")
 	conf := filepath.Join(work, "c06.conf")
@@ -367,6 +371,428 @@ func e2eMain(bin, tmpl, work string, n int) int {
 		}
 		gen.Emit(c)
 	}
-	fmt.Printf("{\"e2e_done\":%d}\n", len(pend))
+	extra := 0
+	nm := 5
+	if n >= 200 {
+		nm = 40
+	}
+	if rc := e2eFormats(r, len(pend), nm, &extra); rc != 0 {
+		return rc
+	}
+	if rc := e2eBlocks(len(pend)+extra, &extra); rc != 0 {
+		return rc
+	}
+	fmt.Printf("{\"e2e_done\":%d}\n", len(pend)+extra)
+	return 0
+}
+
+
+// ---------------------------------------------------------------------------------------------
+// every response format of /query over points with different field sets in one measurement
+
+type respFormat struct {
+	name   string
+	accept string
+	params [][2]string
+}
+
+var respFormats = []respFormat{
+	{"json", "", nil},
+	{"json-pretty", "application/json", [][2]string{{"pretty", "true"}}},
+	{"json-chunked", "", [][2]string{{"chunked", "true"}, {"chunk_size", "1"}}},
+	{"csv", "application/csv", nil},
+	{"text-csv", "text/csv", nil},
+	{"msgpack", "application/x-msgpack", nil},
+}
+
+func fetch(q string, f respFormat) ([]byte, error) {
+	vals := url.Values{"db": {"c06"}, "epoch": {"ns"}, "q": {q}}
+	for _, kv := range f.params {
+		vals.Set(kv[0], kv[1])
+	}
+	req, _ := http.NewRequest("GET", e2eBase+"/query?"+vals.Encode(), nil)
+	if f.accept != "" {
+		req.Header.Set("Accept", f.accept)
+	}
+	resp, err := httpc.Do(req)
+	if err != nil {
+		return nil, err
+	}
+	defer resp.Body.Close()
+	return io.ReadAll(resp.Body)
+}
+
+// decodeRows: rows as column -> cell. JSON/msgpack cells are typed values (nil = null); CSV cells are strings
+// ("" = null).
+func decodeRows(raw []byte, f respFormat) ([]map[string]interface{}, error) {
+	var out []map[string]interface{}
+	addSeries := func(cols []string, values [][]interface{}) {
+		for _, v := range values {
+			row := map[string]interface{}{}
+			for i, c := range cols {
+				if i < len(v) {
+					row[c] = v[i]
+				}
+			}
+			out = append(out, row)
+		}
+	}
+	switch {
+	case strings.HasPrefix(f.name, "json"):
+		dec := json.NewDecoder(bytes.NewReader(raw))
+		dec.UseNumber()
+		for {
+			var r qResp
+			if err := dec.Decode(&r); err == io.EOF {
+				break
+			} else if err != nil {
+				return nil, err
+			}
+			if r.Error != "" {
+				return nil, fmt.Errorf("%s", r.Error)
+			}
+			for _, res := range r.Results {
+				if res.Error != "" {
+					return nil, fmt.Errorf("%s", res.Error)
+				}
+				for _, s := range res.Series {
+					addSeries(s.Columns, s.Values)
+				}
+			}
+		}
+	case strings.Contains(f.name, "csv"):
+		rd := csv.NewReader(bytes.NewReader(raw))
+		rd.FieldsPerRecord = -1
+		recs, err := rd.ReadAll()
+		if err != nil {
+			return nil, err
+		}
+		var hdr []string
+		for _, rec := range recs {
+			if len(rec) > 0 && rec[0] == "name" && (hdr == nil || len(rec) != len(hdr) || rec[1] == "tags") {
+				hdr = rec
+				continue
+			}
+			if hdr == nil {
+				return nil, fmt.Errorf("csv without header")
+			}
+			row := map[string]interface{}{}
+			for i := 2; i < len(hdr) && i < len(rec); i++ {
+				row[hdr[i]] = rec[i]
+			}
+			out = append(out, row)
+		}
+	default: // msgpack
+		v, err := msgp.NewReader(bytes.NewReader(raw)).ReadIntf()
+		if err != nil {
+			return nil, err
+		}
+		top, _ := v.(map[string]interface{})
+		if e, ok := top["error"]; ok {
+			return nil, fmt.Errorf("%v", e)
+		}
+		results, _ := top["results"].([]interface{})
+		for _, r := range results {
+			rm, _ := r.(map[string]interface{})
+			if e, ok := rm["error"]; ok {
+				return nil, fmt.Errorf("%v", e)
+			}
+			series, _ := rm["series"].([]interface{})
+			for _, s := range series {
+				sm, _ := s.(map[string]interface{})
+				var cols []string
+				for _, c := range sm["columns"].([]interface{}) {
+					cols = append(cols, fmt.Sprint(c))
+				}
+				var values [][]interface{}
+				for _, vs := range sm["values"].([]interface{}) {
+					values = append(values, vs.([]interface{}))
+				}
+				addSeries(cols, values)
+			}
+		}
+	}
+	return out, nil
+}
+
+func cellInt(v interface{}) (int64, bool) {
+	switch x := v.(type) {
+	case json.Number:
+		if strings.ContainsAny(string(x), ".eE") {
+			return 0, false
+		}
+		n, err := strconv.ParseInt(string(x), 10, 64)
+		return n, err == nil
+	case string:
+		n, err := strconv.ParseInt(x, 10, 64)
+		return n, err == nil
+	case int64:
+		return x, true
+	case int:
+		return int64(x), true
+	case int32:
+		return int64(x), true
+	case uint64:
+		return int64(x), x <= math.MaxInt64
+	case time.Time:
+		return x.UnixNano(), true
+	}
+	return 0, false
+}
+
+// cellObs: the returned cell seen as a value of the kind the field was written with.
+func cellObs(key string, kind byte, v interface{}) FieldObs {
+	fo := FieldObs{K: hx(key), T: -1}
+	switch kind {
+	case 'i':
+		if n, ok := cellInt(v); ok {
+			fo.T, fo.Stored = influx.Field_Type_Int, n
+		}
+	case 'f':
+		switch x := v.(type) {
+		case json.Number:
+			if f, err := strconv.ParseFloat(string(x), 64); err == nil {
+				fo.T, fo.Bits = influx.Field_Type_Float, math.Float64bits(f)
+			}
+		case string:
+			if f, err := strconv.ParseFloat(x, 64); err == nil {
+				fo.T, fo.Bits = influx.Field_Type_Float, math.Float64bits(f)
+			}
+		case float64:
+			fo.T, fo.Bits = influx.Field_Type_Float, math.Float64bits(x)
+		case float32:
+			fo.T, fo.Bits = influx.Field_Type_Float, math.Float64bits(float64(x))
+		}
+	case 'b':
+		switch x := v.(type) {
+		case bool:
+			fo.T = influx.Field_Type_Boolean
+			if x {
+				fo.Bits = math.Float64bits(1)
+			}
+		case string:
+			if x == "true" || x == "false" {
+				fo.T = influx.Field_Type_Boolean
+				if x == "true" {
+					fo.Bits = math.Float64bits(1)
+				}
+			}
+		}
+	case 's':
+		if x, ok := v.(string); ok {
+			fo.T, fo.S = influx.Field_Type_String, hx(x)
+		}
+	}
+	return fo
+}
+
+func cleanVal(r *gen.Rand, kind byte) PVal {
+	switch kind {
+	case 'i':
+		n := int64(r.Uint64()>>uint(11+r.Intn(40))) - int64(r.Intn(2000))
+		return PVal{Kind: 'i', Int: n, Text: strconv.FormatInt(n, 10) + "i"}
+	case 'f':
+		lit := digits(r, r.Range(1, 6)) + "." + digits(r, r.Range(1, 6))
+		if r.Bool() {
+			lit = "-" + lit
+		}
+		f, _ := strconv.ParseFloat(lit, 64)
+		return PVal{Kind: 'f', Lit: lit, FBits: math.Float64bits(f), Text: lit}
+	case 'b':
+		b := r.Bool()
+		return PVal{Kind: 'b', Bool: b, Text: map[bool]string{true: "true", false: "false"}[b]}
+	default:
+		s := genBsqString(r)
+		if r.Bool() {
+			s = genBytes(r, 1, 10, 30)
+		}
+		s = strings.NewReplacer("\n", "", "\r", "").Replace(s)
+		if s == "" {
+			s = "x"
+		}
+		return PVal{Kind: 's', Str: s, Text: "\"" + escStr(r, s, false) + "\""}
+	}
+}
+
+// e2eFormats: nm measurements; each gets 4..6 points with different subsets of four typed fields (a row with every
+// field first, then rows in which every column is null at least once after a non-null), written in one request and
+// read back in every response format.
+func e2eFormats(r *gen.Rand, base, nm int, extra *int) int {
+	kinds := []byte{'f', 'i', 'b', 's'}
+	for j := 0; j < nm; j++ {
+		m := fmt.Sprintf("r%d", j)
+		keys := []string{"fa" + strconv.Itoa(r.Intn(10)), "ib" + strconv.Itoa(r.Intn(10)), "ok" + strconv.Itoa(r.Intn(10)), "s" + genBytes(r, 1, 4, 0)}
+		np := r.Range(4, 6)
+		var pts []Point
+		var lines []string
+		for i := 0; i < np; i++ {
+			p := Point{Name: m, HasTs: true, Ts: 1600000000000000000 + int64(j)*1000 + int64(i)}
+			for k := range keys {
+				present := i == 0 || (i-1 != k && r.Intn(3) > 0) // row k+1 lacks column k; later rows lack columns at random
+				if present {
+					p.Fields = append(p.Fields, PField{K: keys[k], V: cleanVal(r, kinds[k])})
+				}
+			}
+			if len(p.Fields) == 0 {
+				p.Fields = append(p.Fields, PField{K: keys[0], V: cleanVal(r, kinds[0])})
+			}
+			pts = append(pts, p)
+			lines = append(lines, render(r, p))
+		}
+		body := strings.Join(lines, "\n")
+		st, rb, err := httpPost("/write", url.Values{"db": {"c06"}}, []byte(body))
+		if err != nil {
+			fmt.Println("ERROR e2e: write", err)
+			return 2
+		}
+		if st != 204 {
+			c := &E2ECase{E2E: base + *extra, Class: "formats", Sub: "write", Text: body, Status: st, Got: string(rb)}
+			c.Oracle = []OracleFail{{"none", fmt.Sprintf("valid multi-line body answered %d", st)}}
+			gen.Emit(c)
+			*extra++
+			continue
+		}
+		// wait until all rows are visible
+		for try := 0; try < 40; try++ {
+			raw, _ := fetch("SELECT * FROM "+m, respFormats[0])
+			rows, _ := decodeRows(raw, respFormats[0])
+			if len(rows) >= np {
+				break
+			}
+			time.Sleep(250 * time.Millisecond)
+		}
+		for _, f := range respFormats {
+			raw, err := fetch("SELECT * FROM "+m, f)
+			if err != nil {
+				fmt.Println("ERROR e2e: query", err)
+				return 2
+			}
+			c := &E2ECase{E2E: base + *extra, Class: "formats", Sub: f.name, Text: body, Status: 204, Oracle: []OracleFail{}}
+			*extra++
+			got := string(raw)
+			if f.name == "msgpack" {
+				got = fmt.Sprintf("%x", raw)
+			}
+			if len(got) > 700 {
+				got = got[:700]
+			}
+			c.Got = got
+			rows, err := decodeRows(raw, f)
+			if err != nil {
+				c.Oracle = append(c.Oracle, OracleFail{"none", "undecodable " + f.name + " answer: " + err.Error()})
+				gen.Emit(c)
+				continue
+			}
+			sort.SliceStable(rows, func(a, b int) bool {
+				x, _ := cellInt(rows[a]["time"])
+				y, _ := cellInt(rows[b]["time"])
+				return x < y
+			})
+			if len(rows) != np {
+				c.Oracle = append(c.Oracle, OracleFail{"none", fmt.Sprintf("%d points written, %d rows in the %s answer", np, len(rows), f.name)})
+				gen.Emit(c)
+				continue
+			}
+			for i, p := range pts {
+				ro := RowObs{Name: hx(m), Tags: [][2]string{}}
+				if ts, ok := cellInt(rows[i]["time"]); ok {
+					ro.Ts = &ts
+				}
+				have := map[string]bool{}
+				for _, fl := range p.Fields {
+					have[fl.K] = true
+					ro.Fields = append(ro.Fields, cellObs(fl.K, fl.V.Kind, rows[i][fl.K]))
+				}
+				for _, of := range comparePoint(p, ro, 1) {
+					of.What = f.name + " row " + strconv.Itoa(i) + ": " + of.What
+					c.Oracle = append(c.Oracle, of)
+				}
+				for _, k := range keys {
+					if have[k] {
+						continue
+					}
+					if v, ok := rows[i][k]; ok && v != nil && v != "" {
+						c.Oracle = append(c.Oracle, OracleFail{"none", fmt.Sprintf("%s row %d: column %s returns %v for a point that was written without that field", f.name, i, k, v)})
+					}
+				}
+			}
+			gen.Emit(c)
+		}
+	}
+	return 0
+}
+
+// e2eBlocks: request bodies whose length lands on and around multiples of the server's read-block size, with and
+// without a final newline: every line of the body must come back from a query.
+func e2eBlocks(base int, extra *int) int {
+	type job struct {
+		m    string
+		want []string
+		c    *E2ECase
+	}
+	var jobs []job
+	for k := 1; k <= 3; k++ {
+		for d := -2; d <= 2; d++ {
+			for _, final := range []bool{false, true} {
+				L := k*e2eBlock + d
+				m := fmt.Sprintf("sb%d_%v", L, final)
+				body, want := sweepBody(m, L, "\n", final, false)
+				if body == "" {
+					continue
+				}
+				st, rb, err := httpPost("/write", url.Values{"db": {"c06"}}, []byte(body))
+				if err != nil {
+					fmt.Println("ERROR e2e: write", err)
+					return 2
+				}
+				c := &E2ECase{E2E: base + *extra, Class: "blocks", Sub: fmt.Sprintf("len=%d final-newline=%v", L, final), Text: body, Status: st, Oracle: []OracleFail{}}
+				*extra++
+				if st != 204 {
+					c.Got = string(rb)
+					c.Oracle = append(c.Oracle, OracleFail{"none", fmt.Sprintf("valid body of %d bytes answered %d", L, st)})
+				}
+				jobs = append(jobs, job{m, want, c})
+			}
+		}
+	}
+	time.Sleep(1200 * time.Millisecond)
+	for _, j := range jobs {
+		if j.c.Status == 204 {
+			var rows []map[string]interface{}
+			var raw string
+			var err error
+			for try := 0; try < 12; try++ {
+				rows, raw, err = rowsOf(j.m)
+				if err != nil {
+					fmt.Println("ERROR e2e: query", err, raw)
+					return 2
+				}
+				if len(rows) >= len(j.want) {
+					break
+				}
+				time.Sleep(250 * time.Millisecond)
+			}
+			if len(raw) > 500 {
+				raw = raw[:500]
+			}
+			j.c.Got = raw
+			if len(rows) != len(j.want) {
+				j.c.Oracle = append(j.c.Oracle, OracleFail{"none", fmt.Sprintf("%d lines written and acknowledged, %d rows returned", len(j.want), len(rows))})
+			} else {
+				sort.SliceStable(rows, func(a, b int) bool {
+					x, _ := cellInt(rows[a]["time"])
+					y, _ := cellInt(rows[b]["time"])
+					return x < y
+				})
+				for i, w := range j.want {
+					if s, _ := rows[i]["h"].(string); s != w {
+						j.c.Oracle = append(j.c.Oracle, OracleFail{"none", fmt.Sprintf("line %d: tag %q returned as %q", i, w, s)})
+						break
+					}
+				}
+			}
+		}
+		gen.Emit(j.c)
+	}
 	return 0
 }
